@@ -21,6 +21,7 @@ import (
 	"github.com/foxcpp/maddy/framework/exterrors"
 	"github.com/foxcpp/maddy/framework/log"
 	"github.com/foxcpp/maddy/framework/module"
+	"github.com/foxcpp/maddy/internal/dsn"
 	"github.com/foxcpp/maddy/internal/verifshim/vh"
 )
 
@@ -59,15 +60,137 @@ func c01Err(r *vh.Rng, c byte, what string) error {
 	}
 }
 
+// ---- the error grid (C01 run ... X=, C01 cls) ----
+//
+// A failure of class t (temporary) / p (permanent) / u (unclassified) can be spelled in many ways.
+// form = <shape><enhanced code style>.  The class is what the property speaks of: the BASIC reply
+// code (4yz / 5yz) or the marker the code put on the error (exterrors.WithTemporary), whichever
+// comes first on the Unwrap chain - never the enhanced status code.
+//
+//	shapes  S *exterrors.SMTPError{Code: 451|550, EnhancedCode}     F the same inside exterrors.WithFields
+//	        W exterrors.WithTemporary(errors.New, t)  (no codes)      M WithTemporary(S, t)
+//	        Y WithTemporary(SMTPError with the OPPOSITE basic code, t) (the marker is outermost: it decides)
+//	        E SMTPError{Code, EnhancedCode, Err: WithTemporary(errors.New, !t)} (the reply code is outermost)
+//	        P *smtp.SMTPError{Code, EnhancedCode} of go-smtp (deprecated but accepted by the queue)
+//	        D context.DeadlineExceeded inside fmt.Errorf("%w") for t (Temporary() == true); p: as S
+//	        class u: S,P,D errors.New; F WithFields(errors.New); W context.Canceled; M fmt.Errorf("%w", errors.New);
+//	                 Y fmt.Errorf("%w", context.Canceled); E WithFields(fmt.Errorf("%w", errors.New))
+//	styles  a agreeing with the basic code (x.0.0)   n absent (0.0.0)   2 4 5 that class (2.0.0, 4.2.2, 5.1.1)
+//	        0 class 0 (0.1.1)   1 (1.1.1)   9 (9.0.0)   m go-smtp's NoEnhancedCode (-1.-1.-1)
+//	        k component out of range (<basic class>.1000.1)
+const c01Shapes = "SFWMYEPD"
+const c01Styles = "an245019mk"
+
+func c01EnhOf(style byte, basic int) (exterrors.EnhancedCode, bool) {
+	switch style {
+	case 'a':
+		return exterrors.EnhancedCode{basic / 100, 0, 0}, true
+	case 'n':
+		return exterrors.EnhancedCode{0, 0, 0}, true
+	case '2':
+		return exterrors.EnhancedCode{2, 0, 0}, true
+	case '4':
+		return exterrors.EnhancedCode{4, 2, 2}, true
+	case '5':
+		return exterrors.EnhancedCode{5, 1, 1}, true
+	case '0':
+		return exterrors.EnhancedCode{0, 1, 1}, true
+	case '1':
+		return exterrors.EnhancedCode{1, 1, 1}, true
+	case '9':
+		return exterrors.EnhancedCode{9, 0, 0}, true
+	case 'm':
+		return exterrors.EnhancedCode{-1, -1, -1}, true
+	case 'k':
+		return exterrors.EnhancedCode{basic / 100, 1000, 1}, true
+	}
+	return exterrors.EnhancedCode{}, false
+}
+
+func c01ErrForm(c, shape, style byte, what string) error {
+	if c == 'o' {
+		return nil
+	}
+	if c == 'u' {
+		plain := errors.New(what + ": unclassified failure")
+		switch shape {
+		case 'F':
+			return exterrors.WithFields(plain, map[string]interface{}{"x": 1})
+		case 'W':
+			return context.Canceled
+		case 'M':
+			return fmt.Errorf("%s: %w", what, plain)
+		case 'Y':
+			return fmt.Errorf("%s: %w", what, context.Canceled)
+		case 'E':
+			return exterrors.WithFields(fmt.Errorf("%s: %w", what, plain), map[string]interface{}{"y": 2})
+		}
+		return plain
+	}
+	temp := c == 't'
+	basic, opp := 550, 451
+	if temp {
+		basic, opp = 451, 550
+	}
+	ec, ok := c01EnhOf(style, basic)
+	if !ok {
+		panic("C01: enhanced code style " + string(style))
+	}
+	se := &exterrors.SMTPError{Code: basic, EnhancedCode: ec, Message: what + " refused"}
+	switch shape {
+	case 'S':
+		return se
+	case 'F':
+		return exterrors.WithFields(se, map[string]interface{}{"x": 1})
+	case 'W':
+		return exterrors.WithTemporary(errors.New(what+": marked"), temp)
+	case 'M':
+		return exterrors.WithTemporary(se, temp)
+	case 'Y':
+		ec2, _ := c01EnhOf(style, opp)
+		return exterrors.WithTemporary(&exterrors.SMTPError{Code: opp, EnhancedCode: ec2, Message: what + " refused"}, temp)
+	case 'E':
+		se.Err = exterrors.WithTemporary(errors.New(what+": cause"), !temp)
+		return se
+	case 'P':
+		return &smtp.SMTPError{Code: basic, EnhancedCode: smtp.EnhancedCode(ec), Message: what + " refused"}
+	case 'D':
+		if temp {
+			return fmt.Errorf("%s: %w", what, context.DeadlineExceeded)
+		}
+		return se
+	}
+	panic("C01: error shape " + string(shape))
+}
+
+// c01FormIdx: which form of X= the failure at (attempt, stage, position of the recipient) takes.
+// stages: 0 start, 1 rcpt, 2 body, 3 per-recipient body status, 4 commit.
+func c01FormIdx(n, attempt, stage, pos int) int { return (attempt*11 + stage*5 + pos*3) % n }
+
+// err: the error of class c at that place of the history.
+func (t *c01Target) err(c byte, what string, attempt, stage, id int) error {
+	if t.forms == "" {
+		return c01Err(t.rng, c, what)
+	}
+	i := c01FormIdx(len(t.forms)/2, attempt, stage, t.pos[id])
+	if c != 'o' {
+		t.formsUsed = append(t.formsUsed, string(c)+t.forms[2*i:2*i+2])
+	}
+	return c01ErrForm(c, t.forms[2*i], t.forms[2*i+1], what)
+}
+
 type c01Target struct {
-	mu       sync.Mutex
-	partial  bool
-	plans    []c01Plan
-	attempt  int
-	addrIdx  map[string]int
-	aliasIdx map[string]int // "original recipient" a failure report names instead (c01OriginalRcpts)
-	log      *[]string
-	rng      *vh.Rng
+	mu        sync.Mutex
+	forms     string      // X=: error forms, two letters each ("" = the forms of c01Err, drawn from rng)
+	pos       map[int]int // recipient id -> position in the op line
+	formsUsed []string
+	partial   bool
+	plans     []c01Plan
+	attempt   int
+	addrIdx   map[string]int
+	aliasIdx  map[string]int // "original recipient" a failure report names instead (c01OriginalRcpts)
+	log       *[]string
+	rng       *vh.Rng
 
 	// restarts (C01 run ... R=): q is the queue instance that is running; holdBefore[k] = the
 	// server restarts before attempt k (0-based): attempt k-1 leaves the retry an hour away and
@@ -79,6 +202,7 @@ type c01Target struct {
 
 type c01Delivery struct {
 	t        *c01Target
+	att      int
 	plan     c01Plan
 	accepted []int
 	bodyOK   map[int]bool
@@ -230,15 +354,25 @@ func c01Sender(form byte) string {
 //	E=<utf8><sender form><original-recipient form per recipient>   the message came with SMTPUTF8
 //	               (1) or without (0: then no address has a non-ASCII local part), shape of the
 //	               return path, shape of the address the client named for each recipient ('-' none)
+//	X=<form form ...>   how the failures are spelled: two letters per form (c01ErrForm); the failure at
+//	               (attempt, stage, recipient position) takes form number c01FormIdx
+//	T=<k><kind>.<k><kind>...   before attempt k (k >= 1, or k = 0 together with R=0) a read of the spool
+//	               entry fails once, transiently: the server is stopped after attempt k-1, the entry is
+//	               disturbed, an instance comes up and tries to load / dispatch it, the disturbance is
+//	               repaired and the server restarted.  kinds: h = ID.header is a directory (opens, the read
+//	               fails with EISDIR in Queue.dispatch), m = ID.meta is cut short (short read: the
+//	               decoder fails in readDiskQueue), d = ID.meta is a directory
 type c01Ext struct {
+	faults   map[int]string
 	restarts map[int]int
 	utf8     bool
 	sender   byte
 	orig     string
+	forms    string
 }
 
 func c01ParseExt(toks []string, rcpts []int) c01Ext {
-	e := c01Ext{restarts: map[int]int{}, utf8: true, sender: 'a', orig: strings.Repeat("-", len(rcpts))}
+	e := c01Ext{faults: map[int]string{}, restarts: map[int]int{}, utf8: true, sender: 'a', orig: strings.Repeat("-", len(rcpts))}
 	for _, tok := range toks {
 		switch {
 		case tok == "R=-":
@@ -254,9 +388,30 @@ func c01ParseExt(toks []string, rcpts []int) c01Ext {
 			e.utf8 = tok[2] == '1'
 			e.sender = tok[3]
 			e.orig = tok[4:]
+		case strings.HasPrefix(tok, "T=") && len(tok) > 2:
+			for _, f := range strings.Split(tok[2:], ".") {
+				if len(f) < 2 || !strings.Contains("hmd", f[len(f)-1:]) {
+					panic("C01 run: " + tok)
+				}
+				k, err := strconv.Atoi(f[:len(f)-1])
+				if err != nil || k < 0 {
+					panic("C01 run: " + tok)
+				}
+				e.faults[k] += f[len(f)-1:]
+			}
+		case strings.HasPrefix(tok, "X=") && len(tok) >= 4 && len(tok)%2 == 0:
+			e.forms = tok[2:]
+			for i := 0; i < len(e.forms); i += 2 {
+				if _, ok := c01EnhOf(e.forms[i+1], 550); !ok || !strings.ContainsRune(c01Shapes, rune(e.forms[i])) {
+					panic("C01 run: " + tok)
+				}
+			}
 		default:
 			panic("C01 run: " + tok)
 		}
+	}
+	if e.faults[0] != "" && e.restarts[0] == 0 {
+		panic("C01 run: T=0 without R=0 (the first attempt of a running server does not read the spool)")
 	}
 	if !e.utf8 {
 		// without SMTPUTF8 nobody can name a mailbox with a non-ASCII local part
@@ -310,12 +465,13 @@ func (t *c01Target) Start(ctx context.Context, msgMeta *module.MsgMetadata, mail
 			t.q.initialRetryTime = 0
 		}
 	}
+	att := t.attempt
 	t.attempt++
 	t.ev("start:" + cls(p.start))
-	if err := c01Err(t.rng, p.start, "start"); err != nil {
+	if err := t.err(p.start, "start", att, 0, 0); err != nil {
 		return nil, err
 	}
-	d := &c01Delivery{t: t, plan: p, bodyOK: map[int]bool{}}
+	d := &c01Delivery{t: t, att: att, plan: p, bodyOK: map[int]bool{}}
 	if t.partial {
 		return &c01DeliveryPartial{d}, nil
 	}
@@ -339,7 +495,7 @@ func (d *c01Delivery) AddRcpt(ctx context.Context, to string, _ smtp.RcptOptions
 	}
 	c := get(d.plan.rcpt, i)
 	d.t.ev(fmt.Sprintf("rcpt:%d:%s", i, cls(c)))
-	if err := c01Err(d.t.rng, c, "rcpt"); err != nil {
+	if err := d.t.err(c, "rcpt", d.att, 1, i); err != nil {
 		return err
 	}
 	d.accepted = append(d.accepted, i)
@@ -355,7 +511,7 @@ func (d *c01Delivery) Body(ctx context.Context, header textproto.Header, body bu
 		r.Close()
 	}
 	d.t.ev("body:" + cls(d.plan.body))
-	if err := c01Err(d.t.rng, d.plan.body, "body"); err != nil {
+	if err := d.t.err(d.plan.body, "body", d.att, 2, 0); err != nil {
 		return err
 	}
 	for _, i := range d.accepted {
@@ -371,7 +527,7 @@ func (d *c01DeliveryPartial) BodyNonAtomic(ctx context.Context, sc module.Status
 	for _, i := range d.accepted {
 		c := get(d.plan.bodyRc, i)
 		parts = append(parts, fmt.Sprintf("%d=%s", i, cls(c)))
-		err := c01Err(d.t.rng, c, "body-status")
+		err := d.t.err(c, "body-status", d.att, 3, i)
 		if err == nil {
 			d.bodyOK[i] = true
 		}
@@ -395,7 +551,7 @@ func (d *c01Delivery) Commit(ctx context.Context) error {
 	d.t.mu.Lock()
 	defer d.t.mu.Unlock()
 	d.t.ev("commit:" + cls(d.plan.commit))
-	if err := c01Err(d.t.rng, d.plan.commit, "commit"); err != nil {
+	if err := d.t.err(d.plan.commit, "commit", d.att, 4, 0); err != nil {
 		return err
 	}
 	// ground truth of the downstream: what it now holds
@@ -536,10 +692,18 @@ func c01Run(out *vh.Out, op string, seed uint64) {
 	rng := vh.NewRng(seed)
 
 	var evlog []string
-	tgt := &c01Target{partial: partial, plans: plans, addrIdx: map[string]int{}, log: &evlog, rng: rng, holdBefore: ext.restarts}
+	holdBefore := map[int]int{}
+	for k, n := range ext.restarts {
+		holdBefore[k] += n
+	}
+	for k, f := range ext.faults {
+		holdBefore[k] += len(f)
+	}
+	tgt := &c01Target{partial: partial, plans: plans, addrIdx: map[string]int{}, log: &evlog, rng: rng, holdBefore: holdBefore, forms: ext.forms, pos: map[int]int{}}
 	var addrs []string
 	addrOf := map[int]string{}
-	for _, r := range rcpts {
+	for j, r := range rcpts {
+		tgt.pos[r] = j
 		a := c01Addr(r)
 		if _, dup := tgt.addrIdx[a]; dup {
 			panic("C01 run: recipient twice in " + op)
@@ -589,12 +753,50 @@ func c01Run(out *vh.Out, op string, seed uint64) {
 		return newQ(false)
 	}
 	q := newQ(false)
+	id, _ := module.GenerateMsgID()
+	// resume: the server is down (Queue.Close was the barrier) and comes up again before attempt k.
+	// First the transient read faults of T=: disturb the entry, let an instance load / dispatch it (the
+	// slot leaves the time wheel when the dispatch begins and Queue.Close waits for its end: no
+	// clock in that), repair.  Then the restart proper.
+	readFaults := 0
+	resume := func(k int) *Queue {
+		for _, kind := range ext.faults[k] {
+			file := dir + "/" + id + ".header"
+			if kind != 'h' {
+				file = dir + "/" + id + ".meta"
+			}
+			if _, err := os.Stat(file); err != nil {
+				break // nothing (left) to disturb
+			}
+			must := func(err error) {
+				if err != nil {
+					panic(err)
+				}
+			}
+			must(os.Rename(file, file+".sav"))
+			if kind == 'm' {
+				blob, err := os.ReadFile(file + ".sav")
+				must(err)
+				must(os.WriteFile(file, blob[:len(blob)/2], 0o600))
+			} else {
+				must(os.Mkdir(file, 0o700))
+			}
+			fq := newQ(false)
+			for stop := time.Now().Add(30 * time.Second); !c01WheelEmpty(fq) && time.Now().Before(stop); {
+				time.Sleep(200 * time.Microsecond)
+			}
+			fq.Close()
+			must(os.RemoveAll(file))
+			must(os.Rename(file+".sav", file))
+			readFaults++
+		}
+		return restart(ext.restarts[k])
+	}
 
 	from := c01Sender(ext.sender)
 	if !dsn {
 		from = ""
 	}
-	id, _ := module.GenerateMsgID()
 	meta := &module.MsgMetadata{ID: id, OriginalFrom: from, DontTraceSender: true, SMTPOpts: smtp.MailOptions{UTF8: ext.utf8}, OriginalRcpts: origRcpts}
 	ctx := context.Background()
 	d, err := q.Start(ctx, meta, from)
@@ -626,7 +828,7 @@ func c01Run(out *vh.Out, op string, seed uint64) {
 		return
 	}
 	if ext.restarts[0] > 0 {
-		q = restart(ext.restarts[0])
+		q = resume(0)
 	}
 
 	// run to quiescence: the spool entry is removed after the terminal attempt.  Queue.Close is a
@@ -673,7 +875,7 @@ func c01Run(out *vh.Out, op string, seed uint64) {
 				removed = true
 				break
 			}
-			q = restart(ext.restarts[attempt])
+			q = resume(attempt)
 			idleSince = time.Time{}
 			continue
 		}
@@ -712,7 +914,7 @@ func c01Run(out *vh.Out, op string, seed uint64) {
 			// wheel has dropped its retry: an instance on the same spool picks it up
 			if holds2 > handled {
 				handled = holds2
-				q = restart(ext.restarts[attempt2])
+				q = resume(attempt2)
 			} else {
 				out.Stat("run.unplanned-restart")
 				q = newQ(false)
@@ -795,8 +997,27 @@ func c01Run(out *vh.Out, op string, seed uint64) {
 		out.Violation("C01/not-terminated", op, strings.Join(trace, " "))
 	}
 	// retry only after a temporary/unclassified failure: walk attempts with the plan
-	c01CheckRetries(out, op, trace, plans, partial)
+	c01CheckRetries(out, op, trace, plans, partial, maxTries, toks[5])
+	if ext.forms != "" {
+		out.Stat("run.forms")
+		tgt.mu.Lock()
+		for _, f := range tgt.formsUsed {
+			out.Stat("run.form.class-" + f[:1] + ".shape-" + f[1:2])
+			out.Stat("run.form.class-" + f[:1] + ".style-" + f[2:3])
+		}
+		tgt.mu.Unlock()
+	}
 	out.Stat(fmt.Sprintf("attempts.%d", attempts))
+	if readFaults > 0 {
+		out.Stat(fmt.Sprintf("run.read-faults.%d", readFaults))
+		for k, f := range ext.faults {
+			if k <= attempts {
+				for _, kind := range f {
+					out.Stat("run.read-fault.kind-" + string(kind))
+				}
+			}
+		}
+	}
 	out.Stat("kind." + toks[3])
 	out.StatN("rcpts", len(rcpts))
 	if c01HasSpellings(addrOf) {
@@ -871,7 +1092,7 @@ func c01WheelEmpty(q *Queue) bool {
 
 // c01CheckRetries: a recipient that appears in attempt k+1 must have ended attempt k with a
 // temporary or unclassified failure (computed from the trace's own stage results).
-func c01CheckRetries(out *vh.Out, op string, trace []string, plans []c01Plan, partial bool) {
+func c01CheckRetries(out *vh.Out, op string, trace []string, plans []c01Plan, partial bool, maxTries int, rcptList string) {
 	type att struct {
 		res map[string]byte // rcpt -> last class seen in this attempt ('o' if no error)
 	}
@@ -915,6 +1136,36 @@ func c01CheckRetries(out *vh.Out, op string, trace []string, plans []c01Plan, pa
 		case strings.HasPrefix(e, "commit:"):
 			flushBody(e[len("commit:")])
 		}
+	}
+	// retried until max tries: a recipient whose attempt k ended with a temporary or unclassified
+	// failure, k+1 < max_tries, takes part in attempt k+1 (whatever the enhanced status code said)
+	pending := strings.Split(rcptList, ",")
+	for k, at := range atts {
+		if at.res["*"] == 'o' && k > 0 {
+			for _, r := range pending {
+				if _, tried := at.res[r]; !tried {
+					out.Violation("C01/not-retried-after-temporary", op, fmt.Sprintf("rcpt %s: temporary/unclassified failure in attempt %d of %d, not part of attempt %d", r, k, maxTries, k+1))
+				}
+			}
+		}
+		var next []string
+		for _, r := range pending {
+			c, seen := at.res[r]
+			if at.res["*"] != 'o' {
+				c, seen = at.res["*"], true
+			}
+			if seen && (c == 't' || c == 'u') && k+1 < maxTries {
+				next = append(next, r)
+			}
+		}
+		pending = next
+	}
+	for _, r := range pending {
+		if len(atts) == 0 {
+			out.Violation("C01/never-attempted", op, fmt.Sprintf("rcpt %s: accepted, no delivery attempt was made", r))
+			continue
+		}
+		out.Violation("C01/not-retried-after-temporary", op, fmt.Sprintf("rcpt %s: temporary/unclassified failure in attempt %d of %d, no further attempt", r, len(atts), maxTries))
 	}
 	for k := 1; k < len(atts); k++ {
 		prev := atts[k-1]
@@ -972,10 +1223,93 @@ func c01GenPlan(r *vh.Rng, n int, faulty int) string {
 	return b.String()
 }
 
+// C01 cls <class t|p|u><shape><style>: one point of the error grid.  Observation: what the queue
+// does with such an error (exterrors.IsTemporaryOrUnspec: retry | final), the reply code and status
+// it records for the failure report (toSMTPErr), whether a report naming a recipient with that
+// status can be written (dsn.RecipientInfo.WriteTo).
+func c01Cls(out *vh.Out, op string) {
+	toks := strings.Fields(op)
+	if len(toks) != 3 || len(toks[2]) != 3 {
+		panic("C01 cls: " + op)
+	}
+	c, shape, style := toks[2][0], toks[2][1], toks[2][2]
+	err := c01ErrForm(c, shape, style, "grid")
+	retry := exterrors.IsTemporaryOrUnspec(err)
+	se := toSMTPErr(err)
+	info := dsn.RecipientInfo{FinalRecipient: "u@example.org", Action: dsn.ActionFailed, Status: se.EnhancedCode, DiagnosticCode: se}
+	werr := info.WriteTo(true, io.Discard)
+	obs := "final"
+	if retry {
+		obs = "retry"
+	}
+	obs += fmt.Sprintf(" %d %d.%d.%d", se.Code, se.EnhancedCode[0], se.EnhancedCode[1], se.EnhancedCode[2])
+	if werr == nil {
+		obs += " report:ok"
+	} else {
+		obs += " report:fails"
+	}
+	out.Corr(op, obs)
+	// the property: the class is the basic reply code / the marker, not the enhanced status code;
+	// every terminal failure can be reported
+	if c == 'p' && retry {
+		out.Violation("C01/permanent-failure-classified-temporary", op, fmt.Sprintf("%T %v: %s", err, err, obs))
+	}
+	if c != 'p' && !retry {
+		out.Violation("C01/temporary-failure-classified-permanent", op, fmt.Sprintf("%T %v: %s", err, err, obs))
+	}
+	if werr != nil {
+		out.Violation("C01/report-cannot-be-generated", op, fmt.Sprintf("%T %v: %s: %v", err, err, obs, werr))
+	}
+	out.Stat("cls.class-" + string(c) + "." + obs[:5])
+	out.Stat("cls.status-class." + strconv.Itoa(se.EnhancedCode[0]))
+}
+
+func TestVerifC01Cls(t *testing.T) {
+	out := vh.Open("c01_cls")
+	defer out.Close()
+	log.DefaultLogger.Out = log.NopOutput{}
+	if ops := vh.Replay(); ops != nil {
+		for _, op := range ops {
+			if strings.HasPrefix(op, "C01 cls ") {
+				c01Cls(out, op)
+			}
+		}
+		return
+	}
+	for _, c := range "tpu" {
+		for _, sh := range c01Shapes {
+			for _, st := range c01Styles {
+				if c == 'u' && st != 'a' {
+					continue
+				}
+				c01Cls(out, fmt.Sprintf("C01 cls %c%c%c", c, sh, st))
+			}
+		}
+	}
+}
+
+// c01GenForms draws the X= token: 2-6 forms; the first one is from the cells that matter most (a
+// reply whose basic and enhanced codes disagree in class, or whose enhanced code is odd / absent).
+func c01GenForms(r *vh.Rng, i int) string {
+	hot := []string{"S4", "S5", "F4", "F5", "S0", "S1", "S9", "Sm", "Sk", "Sn", "S2", "E4", "E5", "P4", "P5", "P1", "Y4", "Y5", "M0", "F1"}
+	var b strings.Builder
+	b.WriteString(hot[i%len(hot)])
+	for n := 1 + r.Intn(5); n > 0; n-- {
+		if r.Chance(40) {
+			b.WriteString(hot[r.Intn(len(hot))])
+			continue
+		}
+		b.WriteByte(c01Shapes[r.Intn(len(c01Shapes))])
+		b.WriteByte(c01Styles[r.Intn(len(c01Styles))])
+	}
+	return b.String()
+}
+
 func TestVerifC01(t *testing.T) {
 	out := vh.Open("c01")
 	defer out.Close()
 	dontRecover = false
+	log.DefaultLogger.Out = log.NopOutput{}
 	c01CheckForms(t)
 	if ops := vh.Replay(); ops != nil {
 		for _, op := range ops {
@@ -1068,7 +1402,7 @@ func TestVerifC01(t *testing.T) {
 		}
 		kind := r.Pick("a", "p")
 		dsn := "1"
-		if r.Chance(15) && mode != 6 {
+		if r.Chance(15) && mode != 6 && mode != 1 {
 			dsn = "0"
 		}
 		// restarts
@@ -1143,6 +1477,58 @@ func TestVerifC01(t *testing.T) {
 				ext = " R=-"
 			}
 			ext += " E=" + utf8 + string(sender) + string(orig)
+		}
+		// transient read faults: every 8th case (mode 5) has more than one attempt (somebody fails
+		// temporarily in the first one) and a read of the entry that fails once before the retry;
+		// 8 % of the other cases get a random one
+		if (mode == 5 && !spellings) || r.Chance(8) {
+			if mode == 5 {
+				if maxTries == 1 {
+					maxTries = 2
+					plans = append(plans, c01GenPlan(r, nr, faulty))
+				}
+				f := strings.Split(plans[0], "/")
+				rcs := []byte(f[1])
+				rcs[r.Intn(nr)] = "tu"[r.Intn(2)]
+				f[0], f[1] = "o", string(rcs)
+				plans[0] = strings.Join(f, "/")
+			}
+			var fs []string
+			for k := 1; k < maxTries; k++ {
+				if k == 1 && mode == 5 || r.Chance(30) {
+					fs = append(fs, strconv.Itoa(k)+string("hhmd"[(i/8+k)%4]))
+					if r.Chance(15) {
+						fs = append(fs, strconv.Itoa(k)+string("hmd"[r.Intn(3)]))
+					}
+				}
+			}
+			if strings.HasPrefix(ext, " R=0") && r.Chance(40) {
+				fs = append([]string{"0" + string("hmd"[r.Intn(3)])}, fs...)
+			}
+			if len(fs) > 0 {
+				if ext == "" {
+					ext = " R=-"
+				}
+				ext += " T=" + strings.Join(fs, ".")
+			}
+		}
+		// how the failures are spelled: every 8th case (mode 1) walks the error grid - the case has a
+		// bounce route and somebody fails in the first attempt (alternately for good / for now), so that
+		// the form decides between a retry and a report; 25 % of the other cases get random forms
+		if mode == 1 || r.Chance(25) {
+			if mode == 1 {
+				if !strings.ContainsAny(plans[0], "tp") {
+					f := strings.Split(plans[0], "/")
+					rcs := []byte(f[1])
+					rcs[0] = "pt"[(i/8)%2]
+					f[0], f[1] = "o", string(rcs)
+					plans[0] = strings.Join(f, "/")
+				}
+			}
+			if ext == "" {
+				ext = " R=-"
+			}
+			ext += " X=" + c01GenForms(r, i/8)
 		}
 		op := fmt.Sprintf("C01 run %d %s %s %s %s%s", maxTries, kind, dsn, strings.Join(rs, ","), strings.Join(plans, ";"), ext)
 		jobs <- job{op, r.Next()}
